@@ -530,6 +530,7 @@ func solveAll(e *Exec, res *HarnessResult, prop string, timeoutS int, meta *Harn
 			}
 		}
 		res.Obligations = append(res.Obligations, or)
+		checkpoint(res)
 		if os.Getenv("VERIF_PROGRESS") != "" {
 			fmt.Fprintf(os.Stderr, "  [%s] %s %s %s %.1fs (%d paths)\n", res.Harness, g.kind, g.id, or.Res, or.SolverS, g.n)
 		}
@@ -714,4 +715,23 @@ func modelConst(v *Term, raw string) *Term {
 		}
 	}
 	return nil
+}
+
+// checkpoint: the child writes what it has decided so far after every obligation, so that a counterexample found
+// (and replayed) before the harness's wall-clock limit is still reported when the remaining obligations run out of
+// time (the parent kills the child at the limit).
+var checkpointPath string
+
+func checkpoint(res *HarnessResult) {
+	if checkpointPath == "" {
+		return
+	}
+	save := res.Status
+	res.Status = "partial"
+	b, _ := json.MarshalIndent(res, "", " ")
+	res.Status = save
+	tmp := checkpointPath + ".tmp"
+	if os.WriteFile(tmp, b, 0o644) == nil {
+		os.Rename(tmp, checkpointPath)
+	}
 }
